@@ -377,7 +377,7 @@ func sameOrigins(a, b ssa.Value) bool {
 	for _, x := range oa {
 		found := false
 		for _, y := range ob {
-			if x == y {
+			if x.same(y) {
 				found = true
 			}
 		}
